@@ -394,7 +394,9 @@ class NetworkServiceSliver(BaseSliver):
                 flag = iA.prop_diff(iB)
 
                 if iA.get_type() == InterfaceType.DedicatedPort:
-                    if iA.diff(iB):
+                    if_diff = iA.diff(iB)
+                    # only added, removed or modified sub-interfaces count, not changes of the port itself
+                    if if_diff and (if_diff.added.interfaces or if_diff.removed.interfaces or if_diff.modified.interfaces):
                         flag |= WhatsModifiedFlag.SUB_INTERFACES
 
                 if flag != WhatsModifiedFlag.NONE:
